@@ -541,6 +541,7 @@ impl WatchDispatcher {
                         Ok(event) => self.dispatch_event(event).await,
                         Err(broadcast::error::RecvError::Lagged(n)) => {
                             warn!("WatchDispatcher lagged {} events (slow watchers)", n);
+                            self.cancel_all_watchers();
                         }
                         Err(broadcast::error::RecvError::Closed) => {
                             debug!("Broadcast channel closed, WatchDispatcher stopping");
@@ -582,6 +583,26 @@ impl WatchDispatcher {
         }
         for key in prefix_keys {
             self.dispatch_to_map(&self.registry.prefix, &key, &progress).await;
+        }
+    }
+
+    /// The broadcast ring overflowed: events are lost for every watcher. End every stream with
+    /// CANCELED (reserved slot) and unregister it, so that no watcher sees a silent gap.
+    fn cancel_all_watchers(&self) {
+        for map in [&self.registry.exact, &self.registry.prefix] {
+            let keys: Vec<Bytes> = map.iter().map(|e| e.key().clone()).collect();
+            for key in keys {
+                let mut ids = Vec::new();
+                if let Some(watchers) = map.get(&key) {
+                    for watcher in watchers.iter() {
+                        let _ = watcher.sender.try_send(crate::watch::make_cancel_event(key.clone()));
+                        ids.push(watcher.id);
+                    }
+                }
+                for id in ids {
+                    self.registry.unregister(id, &key);
+                }
+            }
         }
     }
 
